@@ -2,13 +2,17 @@
    (radsecproxy.c dynamicconfigexternal -> confserver_cb(template) -> mergesrvconf -> compileserverconfig):
    what the template block gives, what the printed block gives, and what applies afterwards.
    Options followed: transport type, RetryInterval, RetryCount, requireMessageAuthenticator, CertificateNameCheck,
-   CertificateCNCheck, StatusServer.  255 = "not given" for the two retry options, as in the C code.  Definitions only. *)
+   CertificateCNCheck, StatusServer, the shared secret (its octets; the length used is their number), addTTL (0 = not
+   given) and LoopPrevention (255 = not given).  255 = "not given" for the two retry options, as in the C code.
+   Definitions only. *)
 From RSP Require Import Base Consts.
 Local Open Scope N_scope.
 
-Record dconf := mkDconf { d_type : N; d_ri : N; d_rc : N; d_reqma : bool; d_nc : bool; d_cnc : bool; d_ss : N }.
+Record dconf := mkDconf { d_type : N; d_ri : N; d_rc : N; d_reqma : bool; d_nc : bool; d_cnc : bool; d_ss : N;
+                          d_secret : bytes; d_addttl : N; d_lp : N }.
 Record dlook := mkDlook { l_type : option N; l_ri : option N; l_rc : option N; l_reqma : option bool;
-                          l_nc : option bool; l_cnc : option bool; l_ss : option N }.
+                          l_nc : option bool; l_cnc : option bool; l_ss : option N;
+                          l_secret : option bytes; l_addttl : option N; l_lp : option N }.
 
 (* transport defaults (udp.c / tcp.c protodefs) *)
 Definition ri_default (ty : N) : N :=
@@ -33,4 +37,10 @@ Definition merge_dyn (t : dconf) (l : dlook) : option dconf :=
             (d_reqma t)                              (* not taken from the printed block *)
             (orelse (l_nc l) (d_nc t))               (* inherited unless given *)
             (orelse (l_cnc l) false)                 (* NOT inherited: off unless the printed block says on *)
-            (orelse (l_ss l) (d_ss t))).
+            (orelse (l_ss l) (d_ss t))
+            (orelse (l_secret l) (d_secret t))       (* the printed secret, whole, else the template's *)
+            (orelse (l_addttl l) (d_addttl t))       (* the values returned by the command take preference *)
+            (orelse (l_lp l) (d_lp t))).
+
+(* the length the secret is used with is the length of the secret that applies *)
+Definition secret_len (c : dconf) : nat := length (d_secret c).
